@@ -20,7 +20,6 @@ import numpy as np
 
 from harness.common import err_kind, deep_compare
 
-DISABLED = True
 PID = "C22"
 THEOREMS = [
     "PorepyVerif.C22.extract_maps_point_to_parent",
@@ -40,7 +39,7 @@ THEOREMS = [
 LEAN_MODULES = ["PorepyVerif.C22.Props"]
 AUDIT = "PorepyVerif/C22/Audit.lean"
 DRIVER = "PorepyVerif/C22/Driver.lean"
-N = {"quick": 360, "thorough": 9000}
+N = {"quick": 360, "thorough": 6000}
 GEOM_TOL = 1e-12
 RULE = ("one call per case; grids: CartGrid 1-d/2-d/3-d, StructuredTriangleGrid, StructuredTetrahedralGrid, fracture-split Cartesian 2-d/3-d "
         "(duplicated faces and nodes), sizes 1-12 cells per axis (2-d) / 1-4 (3-d), optionally mapped by a dyadic affine map (shear/stretch) and, "
@@ -624,7 +623,12 @@ def _oracle_faces(P, g, case):
             got_e = sorted(tuple(sorted(nm[n] for n in th["fn"][lf])) for lf in th["cf_faces"][j])
             if want_e != got_e:
                 return _fail(f"faces=True: cell {j} has edges {got_e}, the boundary of parent face {x} is {want_e}", "faces-cell-edges")
-    # every face of the new grid is used, by cells with consistent orientation
+    # faces of the new grid are distinct entities: two cells sharing a node / an edge share the face
+    fsets = [tuple(sorted(nm[n] for n in col)) for col in th["fn"]]
+    if len(set(fsets)) != len(fsets):
+        return _fail(f"faces=True: the new grid has several faces with the same nodes (parent numbering) {sorted(x for x in set(fsets) if fsets.count(x) > 1)}: "
+                     "neighbouring cells are not connected through a common face", "faces-duplicate-faces")
+    # every face of the new grid is used
     used = sorted({lf for lfs in th["cf_faces"] for lf in lfs})
     if used != list(range(h.num_faces)):
         return _fail("faces=True: the new grid has faces not used by any cell", "faces-unused-faces")
